@@ -39,6 +39,10 @@ pub struct IntentLine {
     pub path: Vec<(u8, u8)>,
     /// completed tokens placed before the cursor word at the final level: indices into the level's named args
     pub before: Vec<u8>,
+    /// positional values typed before descending at each path step (only used where the level has a
+    /// multi-value positional and subcommand_precedence_over_arg, i.e. where the real parser still dispatches)
+    #[serde(default)]
+    pub pos_before: Vec<u8>,
     pub word: Word,
 }
 
@@ -200,12 +204,24 @@ struct Printed {
 }
 
 fn resolve_level<'a>(spec: &'a CmdSpec, path: &[(u8, u8)]) -> (Vec<&'a CmdSpec>, Vec<String>) {
+    resolve_level_with(spec, path, &[])
+}
+
+fn resolve_level_with<'a>(spec: &'a CmdSpec, path: &[(u8, u8)], pos_before: &[u8]) -> (Vec<&'a CmdSpec>, Vec<String>) {
     let mut chain = vec![spec];
     let mut words = Vec::new();
     let mut cur = spec;
-    for (si, ai) in path {
+    for (step, (si, ai)) in path.iter().enumerate() {
         if cur.subs.is_empty() {
             break;
+        }
+        let n_pos = pos_before.get(step).copied().unwrap_or(0) % 3;
+        let multi_pos = cur.args.iter().any(|a| a.is_positional() && a.is_multiple_values() && !a.last && a.value_delimiter.is_none());
+        let first_pos_is_multi = cur.args.iter().find(|a| a.is_positional()).map(|a| a.is_multiple_values() && !a.last).unwrap_or(false);
+        if n_pos > 0 && multi_pos && first_pos_is_multi && cur.has(CmdSetting::SubcommandPrecedenceOverArg) && !cur.has(CmdSetting::ArgsConflictsWithSubcommands) {
+            for _ in 0..n_pos {
+                words.push("val7".to_string());
+            }
         }
         let s = &cur.subs[*si as usize % cur.subs.len()];
         let mut spell = vec![s.name.clone()];
@@ -233,7 +249,7 @@ fn globals_of<'a>(chain: &[&'a CmdSpec]) -> Vec<&'a ArgSpec> {
 /// Print an intent line. Returns None when the intent does not apply to this tree
 /// (e.g. a prefix is requested but the level has no such names).
 fn print_intent(spec: &CmdSpec, il: &IntentLine) -> Option<Printed> {
-    let (chain, mut words) = resolve_level(spec, &il.path);
+    let (chain, mut words) = resolve_level_with(spec, &il.path, &il.pos_before);
     let level = *chain.last().unwrap();
     let globals = globals_of(&chain);
     let ents = level_entities(level, &globals);
@@ -397,8 +413,9 @@ fn gen_line(rng: &mut Rng, spec: &CmdSpec) -> Line {
         Line::Soup { args, index }
     } else {
         Line::Intent(IntentLine {
-            path: (0..rng.usize(3)).map(|_| (rng.below(8) as u8, rng.below(4) as u8)).collect(),
+            path: (0..*rng.pick(&[0usize, 1, 2, 2])).map(|_| (rng.below(8) as u8, rng.below(4) as u8)).collect(),
             before: (0..rng.usize(3)).map(|_| rng.below(16) as u8).collect(),
+            pos_before: if rng.chance(1, 3) { (0..2).map(|_| rng.below(3) as u8).collect() } else { vec![] },
             word: gen_word(rng),
         })
     }
@@ -504,8 +521,12 @@ impl Engine for CompSim {
         deco(rng, &mut spec, &mut with_fs);
         let n_ops = rng.urange(1, 8);
         let mut ops = Vec::new();
+        // a third of the histories start with a parse (the command is then partly built when the engine sees it)
+        if rng.chance(1, 3) {
+            ops.push(COp::Parse(gen_argv(rng, &spec, 6)));
+        }
         for _ in 0..n_ops {
-            ops.push(match rng.weighted(&[10, 5, 1, 1, 2]) {
+            ops.push(match rng.weighted(&[10, 5, 1, 1, 4]) {
                 0 => COp::Complete(gen_line(rng, &spec)),
                 1 => {
                     let line = gen_line(rng, &spec);
